@@ -20,8 +20,10 @@ static uint64_t zext32(uint64_t a) { return (uint64_t)(uint32_t)a; }
 
 static int exit_ok;       /* leaving the test is part of the obligation (C failure reporter only) */
 static uint32_t exited;
+static int cpp_phase;     /* findings: the C scenario has passed, its C++ twin is running */
 void h_exit_hook(void) {
   exited = 1;
+  CHECK(!cpp_phase, "KF_C19_1: the C++ twin of a scenario that passed through the C interface fails the test");
   CHECK(exit_ok, "a forwarder of the C interface never fails the test on its own");
   CHECK(h_failures() == 1, "leaving the test records exactly one failure");
   WITNESS("exit path");
@@ -285,6 +287,44 @@ GG(0) GG(1)
   HARNESS(harness_get_default_cpp_##tb##_##lv##_none_0) { body_get_default_cpp(tb, lv, 0, 0, 1, 2, 3); } HARNESS(harness_get_default_cpp_##tb##_##lv##_none_1) { body_get_default_cpp(tb, lv, 0, 4, 5, 6, 7); } HARNESS(harness_get_default_cpp_##tb##_##lv##_none_2) { body_get_default_cpp(tb, lv, 0, 8, 9, 10, 11); }
 GC(0, 0) GC(0, 1) GC(1, 0) GC(1, 1)
 
+/* mock_scope_c(s)->xReturnValue() against mock(s).xReturnValue() (the real MockSupport getters) on the same state, in both states an
+ * actual call can leave behind: a checked call holding a value of the getter's own type, or (ignored != 0) the ignoring call that
+ * MockSupport::actualCall hands out while mocking is disabled / the call is ignored.
+ * KF_C19_1 (open finding): in the second state the C getters answer from the ignoring call (false, "", 0.0, NULL) while the C++
+ * MockSupport getters of type bool/string/double/pointer/const pointer/function pointer fail the test (the value-less
+ * MockNamedValue has type "int"); the integer getters agree (0). With the define those inputs are assumed away. */
+static int kf1_diverges(int g) { return g == 0 || g >= 7; }
+static void run_support_get(const int IGNORED, const int* G, const uint64_t* v) {
+  h_set_ignored(IGNORED);
+  CHECK(h_actual(S("f")), "actualCall returns the actual-call table");
+  for (int i = 0; i < MAXSTEP; i++) {
+    if (G[i] < 0) continue;
+    if (!IGNORED) h_ret_setup(GTYPE[G[i]], v[i], 0, u2d(v[i]), 1);
+    uint64_t r = h_get(1, G[i]);
+    cpp_phase = 1;
+    uint64_t c = h_cpp_support_get(G[i]);
+    cpp_phase = 0;
+    if (G[i] != 7 || !IGNORED) { OBSERVE(r); OBSERVE(c); }     /* the ignoring call's "" is an address of the build */
+    CHECK(r == c, "the C getter of the MockSupport table answers like the C++ MockSupport getter");
+    CHECK(IGNORED || r == canon(GTYPE[G[i]], v[i]), "and both answer the stored value");
+  }
+  CHECK(!exited && h_failures() == 0, "reading does not fail the test");
+}
+static void body_support_get(const int G0, const int G1, const int G2, const int G3) {
+  const int G[MAXSTEP] = { G0, G1, G2, G3 };
+  h_init();
+  CHECK(h_enter(), "mock_scope_c hands out a table");
+  IN_BOOL(ignored); IN_ARR_U64(v, MAXSTEP);
+#ifdef KF_C19_1
+  for (int i = 0; i < MAXSTEP; i++) if (G[i] >= 0 && kf1_diverges(G[i])) ASSUME(!ignored);
+#endif
+  /* the two states are explored as two separate paths (the call object stays concrete on each) */
+  if (ignored) { run_support_get(1, G, v); WITNESS("end ignoring call"); } else { run_support_get(0, G, v); WITNESS("end checked call"); }
+}
+HARNESS(harness_support_get_0) { body_support_get(1, 2, 3, 4); }
+HARNESS(harness_support_get_1) { body_support_get(5, 6, 0, 7); }
+HARNESS(harness_support_get_2) { body_support_get(8, 9, 10, 11); }
+
 /* hasReturnValue() for both answers; returnValue() of a call without return value */
 static void body_has(const int TABLE) {
   h_init();
@@ -526,3 +566,30 @@ HARNESS(harness_reporter) {
   CHECK(h_failures() == 0 && h_test_has_failed(), "a test that has already failed is not failed a second time");
   WITNESS("end");
 }
+
+/* ------------------------------------------------------------------ findings (not listed in spec.py; expected to FAIL)
+ * KF_C19_1 on the REAL engine (global MockSupport, no doubles): mocking disabled, one actual call, then the typed getter of the
+ * MockSupport table.  C: mock_c()->disable(); mock_c()->actualCall("f"); mock_c()->doubleReturnValue()  -> 0.0, test passes.
+ * C++: mock().disable(); mock().actualCall("f"); mock().doubleReturnValue()                            -> the test FAILS. */
+static void body_finding_disabled(const int G) {
+  h_init();
+  h_real_select();
+  h_sup(5, S(""), 0, 0);                 /* mock_c()->disable() */
+  CHECK(h_sup(4, S("f"), 0, 0), "");     /* mock_c()->actualCall("f") */
+  uint64_t r = h_get(1, G);              /* mock_c()->xReturnValue() */
+  if (G != 7) OBSERVE(r);
+  CHECK(!exited && h_failures() == 0, "the C scenario passes");
+  cpp_phase = 1;
+  uint64_t c = h_real_cpp_disabled_get(G);
+  if (G != 7) OBSERVE(c);
+  CHECK(r == c, "same value");
+  WITNESS("end");
+}
+HARNESS(finding_disabled_support_getter_double) { body_finding_disabled(8); }
+HARNESS(finding_disabled_support_getter_string) { body_finding_disabled(7); }
+HARNESS(finding_disabled_support_getter_bool) { body_finding_disabled(0); }
+/* control: the int getter agrees (passes) */
+HARNESS(harness_disabled_support_getter_int) { body_finding_disabled(1); }
+/* (by reading, confirmed natively) a typed getter of the MockSupport table before ANY actualCall() went through the C interface
+ * dereferences the NULL "current actual call" (mock_c()->intReturnValue() crashes) while mock().intReturnValue() is 0.  Not a
+ * solver obligation: a call through a NULL object pointer makes every virtual target a candidate. */
